@@ -210,9 +210,8 @@ class Program:
                 tree = ast.parse(src, filename=rel)
             except SyntaxError as e:
                 raise AnalysisError(f"{rel} does not parse: {e}")
-            if "match " in src or "contextlib" in src:
-                from . import desugar
-                desugar.rewrite(tree)          # match statements as the if / elif chains they abbreviate
+            from . import desugar
+            desugar.rewrite(tree)          # match statements as the if / elif chains they abbreviate, `x: T = v` in functions as `x = v`, ...
             name = rel[:-3].replace(os.sep, ".")
             if name.endswith(".__init__"):
                 name = name[: -len(".__init__")]
